@@ -219,6 +219,10 @@ class CallMixin:
                 return self.ev(n.args[1], st, old)
             if nm == "len" and len(n.args) == 1:
                 v = self.ev(n.args[0], st, old)
+                if "len" in self.m.hooks and isinstance(v, T):
+                    h = self.m.hooks["len"](self, v, st)
+                    if h is not None:
+                        return h
                 if isinstance(v, TupV):
                     return T(INT, str(len(v.items)))
                 if isinstance(v, T):
@@ -260,6 +264,10 @@ class CallMixin:
                     return v
                 if isinstance(v, T) and v.sort == INT:
                     return self.dec(v)
+                if "str" in self.m.hooks and isinstance(v, T):
+                    h = self.m.hooks["str"](self, v, st)
+                    if h is not None:
+                        return h
                 return c.app("str_of", [OBJ], STR, [self.to_obj(v)])
             if nm == "int" and len(n.args) == 1:
                 v = self.ev(n.args[0], st, old)
@@ -301,7 +309,7 @@ class CallMixin:
             at = f.attr
             if at in ("get", "items", "keys", "values", "startswith", "endswith", "append", "extend", "add", "pop",
                       "encode", "decode", "join", "format", "copy", "update", "setdefault", "discard", "remove", "clear",
-                      "strip", "rstrip", "lstrip", "lower", "upper", "title", "replace", "split", "rsplit", "splitlines"):
+                      "strip", "rstrip", "lstrip", "lower", "upper", "title", "replace", "split", "rsplit", "splitlines") or "method" in self.m.hooks:
                 return self.method_call(n, st, old)
         return None
 
@@ -345,6 +353,10 @@ class CallMixin:
         recv = self.ev(f.value, st, old)
         if not isinstance(recv, T):
             return None
+        if "method" in self.m.hooks:
+            r = self.m.hooks["method"](self, recv, at, n, st, old)
+            if r is not None:
+                return r
         if "as_map" in self.m.hooks:
             mm = self.m.hooks["as_map"](self, recv)
             if mm is not None:
